@@ -53,6 +53,7 @@ var exprFillers = []string{
 	"class Foo; end", "module Bar; end", "a.b.c", "a.b.c(1).d", "a &&= b", "a ??= b", "foo!()", "a.foo!(1)", "foo!", "a.foo", "quote_expr a + b", "quote\n  1\nend", "unsafe a", "type Int | String",
 	"a, b = c", "[a, b] := c", "foo() |x| x end", "foo(1) do |x| x end", "a.foo |x| x end", "[i for i in a]", "{ a: 1 if b }", "[1 if a]", "[*a]", "foo(*a)", "foo(**a)", "a::foo", "Foo::bar", "a.Foo",
 	"super", "super(1)", "self.foo", "undefined", "1u64", "0xff", "1e3", "1_000", "breakpoint", "include Foo", "implement Foo", "alias a b", "typedef T = Int", "getter foo: Int", "sig foo",
+	"$_foo", "$Foo", "$\"a b\"", "def $_foo; end", "$_foo + 1",
 	"init; end", "struct Foo; end", "interface Foo; end", "mixin Foo; end", "singleton\n  1\nend", "using Foo", "enum Foo; end", "extend where T < Int\n  1\nend", "macro m; end", "async def f; end",
 }
 
